@@ -23,10 +23,12 @@ def make_signal(u):
     if sil and n:
         a = int(sil[0] * n)
         x[:, a : a + max(1, int(sil[1] * n))] = 0.0  # a muted stretch: exact digital silence
+    if u.get("nan_at") is not None and n:
+        x[:, min(n - 1, int(u["nan_at"] * n))] = np.nan  # a drop-out marker in a float recording
     return x  # channels first (C, S)
 
 
-def gen_corpus(rng, nutt, allow_multi=False, containers=CONTAINERS, short_ok=True, hash_ids=False):
+def gen_corpus(rng, nutt, allow_multi=False, containers=CONTAINERS, short_ok=True, hash_ids=False, nan_ok=False):
     ids = []
     shapes = rng.choice(("plain", "plain", "prefix", "odd"))
     for i in range(nutt):
@@ -57,6 +59,9 @@ def gen_corpus(rng, nutt, allow_multi=False, containers=CONTAINERS, short_ok=Tru
              "store_dtype": rng.choice(("float64", "float32", "int16"))}
         if rng.random() < 0.15 and n > 50:
             u["silence"] = [rng.choice((0.0, 0.3, 0.6)), rng.choice((0.2, 0.4, 1.0))]
+        if nan_ok and rng.random() < 0.04 and n > 50 and u["container"] in ("npy", "pt", "npz", "hdf5") \
+                and u["store_dtype"] != "int16":
+            u["nan_at"] = rng.choice((0.1, 0.5, 0.95))
         if u["container"] == "wav":
             u["channels"] = 1  # read_signal gives wav as time x channels; the torch tool wants channels first
         corpus.append(u)
